@@ -21,6 +21,17 @@ var commonTrusted = []string{
 	"regexp.MatchString as uninterpreted predicate in verdict queries (definition added when a model is built)",
 }
 
+// localityJob: two lines for H_c06_local (each line alone in a fresh process state vs both in one run).
+func localityJob(name, cmd0, cmd1 string, params map[string]string) *Job {
+	f0, f1 := &filler{}, &filler{}
+	t0, err0 := ParseTemplate("L0", f0.fill(envelopes[0].wrap(cmd0), "str"))
+	t1, err1 := ParseTemplate("L1", f1.fill(envelopes[0].wrap(cmd1), "str"))
+	if err0 != nil || err1 != nil {
+		panic(fmt.Sprint("locality pair ", name, err0, err1))
+	}
+	return &Job{Name: "local:" + name, Harness: "H_c06_local", Lines: map[string]*Template{"L0": t0, "L1": t1}, Params: params}
+}
+
 func templateJobs(harness string, specs []tplSpec, params map[string]string) []*Job {
 	var jobs []*Job
 	for _, s := range specs {
@@ -141,7 +152,19 @@ func init() {
 			if tier != "quick" {
 				specs = append(specs, corpusFor("quick", func(t tplSpec) bool { return t.Tags["pipeline"] || t.Tags["envelope"] })...)
 			}
-			return templateJobs("H_c12", specs, map[string]string{})
+			jobs := templateJobs("H_c12", specs, map[string]string{})
+			// --redactNamespaces together with --redactFieldNames: the namespace claims hold unchanged
+			var both []tplSpec
+			for _, sp := range specs {
+				if strings.HasPrefix(sp.Name, "ns:verb/find") || strings.HasPrefix(sp.Name, "ns:env/") || sp.Name == "ns:getMore" || sp.Name == "ns:stage/lookup" {
+					both = append(both, sp)
+				}
+			}
+			for _, j := range templateJobs("H_c12", both, map[string]string{"fieldNames": "sym"}) {
+				j.Name += "~fn"
+				jobs = append(jobs, j)
+			}
+			return jobs
 		},
 		Functions: walkerFunctions, Witness: []string{"emitted"},
 		Bounds: map[string]any{
@@ -192,6 +215,8 @@ func init() {
 					jobs = append(jobs, &Job{Name: sp.Name + "~re" + fmt.Sprint(fi), Harness: "H_c14", Lines: map[string]*Template{"L0": tpl}, Params: map[string]string{"regexp": pat}})
 				}
 			}
+			// "depends only on the names on the path": not on what earlier lines of the run contained
+			jobs = append(jobs, localityJob("dotted|nested", `{"find":"<<COLL:coll>>","filter":{"%G.%G":%S},"$db":"<<DB:db>>"}`, `{"find":"<<COLL:coll>>","filter":{"%G":{"%G":%S}},"$db":"<<DB:db>>"}`, map[string]string{"mode": "selective"}))
 			return jobs
 		},
 		Functions: walkerFunctions, Witness: []string{"emitted"},
@@ -212,7 +237,19 @@ func init() {
 			})
 			jobs := templateJobs("H_c15", specs, map[string]string{"eager": "on"})
 			for _, ps := range psCorpus(tier) {
-				jobs = append(jobs, templateJobs("H_c15", []tplSpec{ps.tplSpec}, map[string]string{"eager": "on", "ps": ps.Format})...)
+				jobs = append(jobs, templateJobs("H_c15", []tplSpec{ps.tplSpec}, map[string]string{"eager": "on", "ps": ps.Format, "nsFlag": "sym"})...)
+			}
+			// --redactFieldNames together with --redactNamespaces (the namespace test of field-name mode
+			// must see the original attr.ns): every envelope and a spread of the corpus
+			var both []tplSpec
+			for i, sp := range specs {
+				if sp.Tags["envelope"] || i%8 == 0 {
+					both = append(both, sp)
+				}
+			}
+			for _, j := range templateJobs("H_c15", both, map[string]string{"eager": "on", "nsFlag": "sym"}) {
+				j.Name += "~ns"
+				jobs = append(jobs, j)
 			}
 			return jobs
 		},
@@ -298,7 +335,18 @@ func init() {
 			if tier == "thorough" {
 				p["k"] = "3"
 			}
-			return streamJobs("H_c06", tier, triples, p)
+			jobs := streamJobs("H_c06", tier, triples, p)
+			// line-locality against hidden state (H_c06_local): pairs of lines whose key paths can
+			// collide when joined, compared with each line alone in a fresh process state
+			pair := func(name, cmd0, cmd1 string) {
+				jobs = append(jobs, localityJob(name, cmd0, cmd1, map[string]string{}))
+			}
+			pair("dotted|nested", `{"find":"<<COLL:coll>>","filter":{"%G.%G":%S},"$db":"<<DB:db>>"}`, `{"find":"<<COLL:coll>>","filter":{"%G":{"%G":%S}},"$db":"<<DB:db>>"}`)
+			pair("same-shape", `{"find":"<<COLL:coll>>","filter":{"%G":%S},"$db":"<<DB:db>>"}`, `{"find":"<<COLL:coll>>","filter":{"%G":{"$in":[%S,%S]}},"$db":"<<DB:db>>"}`)
+			if tier != "quick" {
+				pair("update|aggregate", `{"update":"<<COLL:coll>>","updates":[{"q":{"%G":%S},"u":{"$set":{"%G.%G":%S}}}],"$db":"<<DB:db>>"}`, aggCmd(`{"$match":{"%G":{"%G":%S}}},{"$group":{"_id":"$%G","%G":{"$push":{"$concat":["$%G",%S]}}}}`))
+			}
+			return jobs
 		},
 		Functions: []string{"processMongoLogStream", "ProcessMongoLogFile", "ProcessMongoLogFileFromReader", "addOneToBar", "RedactMongoLog", "MarshalOrdered", "UnmarshalOrdered", "HashName"},
 		Witness:   []string{"emitted"},
